@@ -1,6 +1,7 @@
 (* C13 — writers surface every sink failure. Model: Life/Writers.v, the
    error-latch discipline of bzip2.Writer / xflate.Writer / meta.Writer over
    a sink with an arbitrary fault plan; what a call emits is a parameter. *)
+From V Require Import XFlate.Index XFlate.Writer XFlate.Mono.
 From V Require Import Base.Prelude Life.Writers.
 
 (* once the sink has failed every call fails and changes nothing *)
@@ -48,3 +49,11 @@ Theorem bzip2_close_prefix_refuted :
   s_fired (l_sink (snd (wcalls false (lw_init d6_plan) d6_calls))) = true.
 Proof. exact C13_D6_refuted. Qed.
 Print Assumptions bzip2_close_prefix_refuted.
+
+(* xflate.Writer only appends: for every compressor, state and call sequence, what the
+   underlying writer held after a prefix of the calls is a prefix of what it holds later *)
+Theorem xflate_sink_before_is_prefix_of_sink_after : forall deflate ops1 ops2 s,
+  exists extra,
+    w_sink (snd (wrun deflate s (ops1 ++ ops2))) = w_sink (snd (wrun deflate s ops1)) ++ extra.
+Proof. exact sink_at_any_moment_is_a_cut. Qed.
+Print Assumptions xflate_sink_before_is_prefix_of_sink_after.
